@@ -555,4 +555,65 @@ theorem fairRoundsT_add {draws : List Nat} {alt : P.Alt} (j k : Nat) (s : FairSt
     | none => rfl
     | some s1 => exact ih s1
 
+/-! ## one round of the fair suffix from its three parts (used for the handshake rounds) -/
+
+/-- the ticks, the deliveries to `b` and the deliveries to `a` of one round, each given by its
+result; the safety and clock invariants carry over whatever the connections' states are -/
+theorem fairRoundT_of (hs : Sim P core cfg) (hl : LocT P S) (draws : List Nat) (alt : P.Alt)
+    {s : FairState P} (hW : WInv P core cfg s.w) (hT : TInv S s.w) {w1 : World P}
+    (hrun : NetSim.run s.w tickMoves = some w1)
+    {prea Lb : List (Sent P.Packet)} (houta : w1.a.out = prea ++ Lb) (hprea : prea.length = s.ca)
+    (hLb : ∀ sn ∈ Lb, sn.nStamp = w1.a.nAbs ∧ w1.b.nAbs ≤ sn.dStamp + 512)
+    {b2 : End P} (hB : recvEndsD w1.now draws alt w1.b (Lb.map (·.pkt)) = some b2)
+    {preb La : List (Sent P.Packet)} (houtb : b2.out = preb ++ La) (hpreb : preb.length = s.cb)
+    (hLa : ∀ sn ∈ La, sn.nStamp = b2.nAbs ∧ w1.a.nAbs ≤ sn.dStamp + 512)
+    {a2 : End P} (hA : recvEndsD w1.now draws alt w1.a (La.map (·.pkt)) = some a2) :
+    fairRoundT draws alt s = some ⟨(w1.set .b b2).set .a a2, w1.a.out.length, b2.out.length⟩ ∧
+      AInv cfg (absEnd P core a2) (absEnd P core b2) ∧ S w1.now a2.conn ∧ S w1.now b2.conn ∧
+      a2.submitted = w1.a.submitted ∧ b2.submitted = w1.b.submitted ∧ w1.a.dAbs ≤ a2.dAbs ∧ w1.b.dAbs ≤ b2.dAbs := by
+  have hW1 : WInv P core cfg w1 := run_inv hs tickMoves s.w w1 hW (admissible_ticks hrun) hrun
+  have hT1 : TInv S w1 := run_loct hl tickMoves s.w w1 hT hrun
+  obtain ⟨hA2, hS2, b2sub, b2d⟩ := blockAny hs hl (now := w1.now) (draws := draws) alt w1.a Lb w1.b b2
+    (fun sn hsn => ⟨by rw [houta]; exact List.mem_append_right _ hsn, (hLb sn hsn).1, (hLb sn hsn).2⟩)
+    hW1.symm hT1.2 hB
+  obtain ⟨hA3, hS3, a2sub, a2d⟩ := blockAny hs hl (now := w1.now) (draws := draws) alt b2 La w1.a a2
+    (fun sn hsn => ⟨by rw [houtb]; exact List.mem_append_right _ hsn, (hLa sn hsn).1, (hLa sn hsn).2⟩)
+    hA2.symm hT1.1 hA
+  have hrun1 : NetSim.run w1 (deliverRangeD .b s.ca w1.a.out.length draws alt) = some (w1.set .b b2) := by
+    have := run_deliverRangeG (P := P) .b draws alt Lb prea [] w1
+      (by simp only [Side.other, World.get]; rw [houta]; simp)
+    simp only [deliverRangeD]
+    have hlen : w1.a.out.length - s.ca = Lb.length := by rw [houta, ← hprea]; simp
+    rw [hlen, ← hprea, this]
+    simp only [World.get]
+    rw [hB]; rfl
+  have hrun2 : NetSim.run (w1.set .b b2) (deliverRangeD .a s.cb (w1.set .b b2).b.out.length draws alt) =
+      some ((w1.set .b b2).set .a a2) := by
+    have := run_deliverRangeG (P := P) .a draws alt La preb [] (w1.set .b b2)
+      (by simp only [Side.other, World.get, World.set]; rw [houtb]; simp)
+    simp only [deliverRangeD]
+    have hlen : (w1.set .b b2).b.out.length - s.cb = La.length := by
+      simp only [World.set]; rw [houtb, ← hpreb]; simp
+    rw [hlen, ← hpreb, this]
+    simp only [World.get, World.set]
+    rw [hA]; rfl
+  refine ⟨?_, hA3, hS3, hS2, a2sub, b2sub, a2d, b2d⟩
+  simp only [fairRoundT, hrun, hrun1]
+  simp only [World.set] at hrun2 ⊢
+  rw [hrun2]
+
+theorem fairRoundsT_one {draws : List Nat} {alt : P.Alt} {s s1 : FairState P}
+    (e1 : fairRoundT draws alt s = some s1) : fairRoundsT draws alt 1 s = some s1 := by
+  simp [fairRoundsT, e1]
+
+theorem fairRoundsT_two {draws : List Nat} {alt : P.Alt} {s s1 s2 : FairState P}
+    (e1 : fairRoundT draws alt s = some s1) (e2 : fairRoundT draws alt s1 = some s2) :
+    fairRoundsT draws alt 2 s = some s2 := by
+  simp [fairRoundsT, e1, e2]
+
+theorem fairRoundsT_then {draws : List Nat} {alt : P.Alt} {j k : Nat} {s s1 s2 : FairState P}
+    (e1 : fairRoundsT draws alt j s = some s1) (e2 : fairRoundsT draws alt k s1 = some s2) :
+    fairRoundsT draws alt (j + k) s = some s2 := by
+  rw [fairRoundsT_add, e1]; exact e2
+
 end Tw.NetSim
